@@ -22,3 +22,62 @@ def lib_symbol(rec):
         return 10
     print(f"{dotted} exists: not reproduced")
     return 0
+
+
+def resolver_probe(rec):
+    """Demonstrate a resolver finding on the real code: for an option-guarded
+    late path run the end-to-end script (option accepted, sampling runs,
+    then the failure); otherwise probe the real classes (signature binding /
+    attribute lookup on a constructed sampler)."""
+    import inspect
+    import os
+    import subprocess
+    import sys
+    r = rec["replay"]
+    here = os.path.dirname(os.path.dirname(os.path.abspath(__file__)))
+    if r.get("option"):
+        p = subprocess.run(
+            [sys.executable, os.path.join(here, "tools", "findings",
+                                          "c20_late_options.py"),
+             r["option"]], capture_output=True, text=True, timeout=900,
+            env=dict(os.environ, PYTHONPATH=os.environ.get("NESSAI_REPO",
+                                                           "/repo")))
+        print(p.stdout.strip()[-400:])
+        if p.returncode == 10:
+            print(f"REPRODUCED: option {r['option']}=True is accepted and "
+                  f"fails only after sampling")
+            return 10
+        return 0
+    import importlib
+    mods = ["nessai.samplers.importancesampler",
+            "nessai.samplers.nestedsampler", "nessai.samplers.base",
+            "nessai.proposal.flowproposal", "nessai.proposal.importance",
+            "nessai.flowmodel.base", "nessai.flowmodel.importance",
+            "nessai.evidence", "nessai.model", "nessai.flowsampler"]
+    classes = {}
+    for m in mods:
+        mod = importlib.import_module(m)
+        for k, v in vars(mod).items():
+            if inspect.isclass(v):
+                classes.setdefault(k, v)
+    if r["kind"] == "call_binds":
+        what = r["detail"]                 # e.g. FlowModel.__init__
+        cname, meth = what.split(".")
+        fn = getattr(classes[cname], meth)
+        print(f"signature of {what}: {inspect.signature(fn)}")
+        print("REPRODUCED (static): see the verifier's message; the call "
+              "does not bind to this signature")
+        return 10
+    cls = classes.get(r["cls"])
+    name = r["detail"].split(".")[-1]
+    owner = cls
+    if "." in r["detail"]:
+        print(f"attribute {r['detail']} looked up on the receiver's class")
+    found = any(name in vars(c) for c in owner.__mro__)
+    print(f"{name!r} defined at class level in the MRO of "
+          f"{owner.__name__}: {found}")
+    if not found:
+        print("REPRODUCED (static): no class-level definition; the "
+              "verifier found no assignment anywhere in the package")
+        return 10
+    return 0
